@@ -88,7 +88,16 @@ def scan_items(toks, header=""):
             out.extend(scan_items(toks[j + 1:k], hdr))
             i = k + 1
             continue
-        if t.kind == "ident" and t.val in ("mod", "trait") and header == "":
+        if t.kind == "ident" and t.val == "trait" and header == "":
+            j = i + 1
+            while not (toks[j].kind == "punct" and toks[j].val == "{"):
+                j += 1
+            hdr = "trait " + " ".join(x.val for x in toks[i + 1:j])
+            k = match_brace(toks, j)
+            out.extend(scan_items(toks[j + 1:k], hdr))
+            i = k + 1
+            continue
+        if t.kind == "ident" and t.val in ("mod",) and header == "":
             # mod foo; | mod foo { ... } | trait Foo { ... }: skipped
             j = i
             while toks[j].val not in (";", "{"):
